@@ -139,6 +139,18 @@ theorem generated_id_old_outside :
   ⟨{ pfx := [true], nodes := [], cap := 8 }, 0, [false, false, false, false, false, false, false, false],
     by decide, by decide, by decide⟩
 
+/-- The clause-deciding guards that the translator reads from the source and the model consumes (each theorem named here
+    stops building when its guard is false - checked by flipping every flag): the split in `RoutingTable.add` is dominated
+    by `owns(self.my_node_id)` (`split_only_on_own_path`, and with it the whole invariant); `Bucket.split` hands its capacity
+    to both children (`capacity`); `closest_nodes` filters BAD nodes and the excluded id (`closest_count`), walks down to
+    level 0 (`closest_exact`), sorts by distance first (`closest_exact`, `closest_nearest_first`); `node_maintenance`
+    generates the refresh id from the group it refreshes (`refresh_targets_inside`); `generate_id`'s draw stays below 2^n
+    (`generated_id_draw_in_range`). -/
+theorem source_guards_hold :
+    Gen.splitGuardOwnId = true ∧ Gen.splitChildrenInheritCap = true ∧ Gen.closestFiltersBad = true ∧
+    Gen.closestExcludesById = true ∧ Gen.closestWalkFromRoot = true ∧ Gen.closestSortDistanceFirst = true ∧
+    Gen.refreshFromOwnGroup = true := by decide
+
 /-- The theorems above at the constants of the current source (regenerated on every run): capacity ≥ 1, whole bytes;
     and the pinned meaning of "failed multiple queries in a row" that the harness oracle uses too: two. -/
 theorem code_constants_admissible :
@@ -205,7 +217,7 @@ theorem closest_count (hm : 1 ≤ m) (me : Bits) (ops : List Op) (hv : ValidHist
   have := List.mem_mergeSort.mp (List.mem_of_mem_take hx)
   have h' := List.mem_filter.mp this
   refine ⟨h'.1, ?_⟩
-  simpa [RT.live] using h'.2
+  simpa [RT.live, Gen.closestFiltersBad, Gen.closestExcludesById] using h'.2
 
 /-- ... and nothing nearer was left out: every live node that is not returned is farther from the target than every
     returned node. -/
